@@ -15,7 +15,7 @@ engine.use_repo()
 
 # strategy -> (module, tag); the module provides tie(full) -> context manager with .lines / .impl and compare()
 MODELS = {"greedy": "tie_rule", "balanced": "tie_rule", "distributed": "s_distributed",
-          "balanced_market": "s_balanced_market", "peak_load_window": "s_peak_load_window", "schedule": "s_schedule", "flex_window": "s_flex_window"}
+          "balanced_market": "s_balanced_market", "peak_load_window": "s_peak_load_window", "schedule": "s_schedule", "flex_window": "s_flex_window", "peak_shaving": "s_peak_shaving"}
 
 
 class AdapterError(BaseException):
